@@ -6,7 +6,7 @@ from vlib import c08_sugar as S
 from vlib.gen import chance, pick
 
 ID = "C08"
-CASES = {"quick": 1000, "thorough": 30000}
+CASES = {"quick": 800, "thorough": 30000}
 SOFT = 90
 HARD = 300
 RULE = ("case = (grammar: zoo or random, without unit cycles; constraint in ISLa's simplified syntax with every sugar feature "
@@ -31,7 +31,7 @@ ASSUMPTIONS = ["(constraint, tree) pairs on which the placement of an introduced
                "(no documented translation); grammars with A =>+ A are not used (an XPath-derived tree prefix cannot be written as a "
                "match expression there)",
                "reference flags (ambiguous match expression, nth with equal labels, level on the level nonterminal) exclude the pair; "
-               "pairs needing more than 600 atom evaluations in the reference are skipped (cost bound, deterministic)",
+               "pairs needing more than 300 atom evaluations in the reference (1200 per case) are skipped (cost bound, deterministic)",
                "operator precedence among infix SMT operators is taken to be the usual one (* div mod over + - over comparisons), "
                "the only combination the specification shows is `17 + str.to.int(y) = str.to.int(x)`; not > and > or as in the "
                "specification's `A and not B or B and not A`",
@@ -165,7 +165,11 @@ def generate(rnd, tier):
         fs, _ = S.features(F)
         if fs & set(S.SUGAR_FEATURES) and len(S.pr_sugar(F)) < 700:
             break
-    return {"grammar": g, "gname": name, "trees": trees, "formula": F}
+    case = {"grammar": g, "gname": name, "trees": trees, "formula": F}
+    if chance(rnd, 0.1):
+        # `const c: <start>;` -- the omitted `in` and the closure of free nonterminals then refer to c
+        case["const"] = pick(rnd, ["c", "root", "inp"])
+    return case
 
 
 # ------------------------------------------------------------------ ISLa side
@@ -194,6 +198,7 @@ PARSE_CAUSES = (("multi_segment", ("else_branch",)),
                 ("dd_below_exists", ("unbound",)),
                 ("xp_binder_under_iff_xor", ("unbound", "unknown_variable", "stop_iteration")),
                 ("xp_head_name_reused", ("unbound", "unknown_variable", "stop_iteration", "no_conversion")),
+                ("dup_binder_captures_xpath_var", ("unbound", "unknown_variable", "stop_iteration")),
                 ("free_plain_and_head", ("unbound", "stop_iteration")),
                 ("free_before_omitted", ("unbound",)),
                 ("free_after_xpath_same_type", ("unbound", "unknown_variable", "stop_iteration")),
@@ -235,39 +240,42 @@ def diagnose(exc_type, msg, causes, fs):
     return "unexplained"
 
 
-def term_is_const(t):
-    """does Z3's simplifier fold this fml term (variables = opaque strings) to true/false?"""
+def const_of(t):
+    """(value, value_via_negation) of an SMT term (fml or sugared form; variables = opaque strings): the truth value if
+    Z3's simplifier folds the term / its negation to a constant, else None.  The harness asks Z3 directly."""
     import z3
+    if t and t[0] in ("ref", "app"):
+        t = S.plain_term(t)
     try:
-        vs = {v: z3.String(v) for v in fml.term_vars(t)}
-        r = z3.simplify(fml.term_to_z3(t, z3, vs))
+        # built from SMT-LIB text like the parser does (z3's simplifier is sensitive to how a term was constructed)
+        names = {v: "x%d" % i for i, v in enumerate(sorted(fml.term_vars(t)))}
+
+        def ren(u):
+            if u[0] == "var":
+                return ["var", names[u[1]]]
+            if u[0] in ("str", "int"):
+                return u
+            return [u[0]] + [ren(a) for a in u[1:]]
+
+        e = z3.parse_smt2_string("(assert %s)" % fml.term_str(ren(t)), decls={n: z3.String(n) for n in names.values()})[0]
+        r, rn = z3.simplify(e), z3.simplify(z3.Not(e))
     except Exception:
-        return False
-    return z3.is_true(r) or z3.is_false(r)
+        return None, None
+    pos = True if z3.is_true(r) else False if z3.is_false(r) else None
+    ng = False if z3.is_true(rn) else True if z3.is_false(rn) else None
+    return pos, ng
 
 
-def fold_const_atoms(F):
-    """(F', n): F with every SMT atom that Z3's simplifier folds to a constant replaced by that constant
-    (the harness asks Z3 directly).  The parser folds such atoms while reading, so that a variable occurring
-    only there disappears before the free nonterminals are closed."""
-    import z3
-    n = [0]
+def term_is_const(t):
+    return const_of(t) != (None, None)
 
-    def fn(a):
-        if a[0] != "smt":
-            return a
-        try:
-            t = S.plain_term(a[1])
-            vs = {v: z3.String(v) for v in fml.term_vars(t)}
-            r = z3.simplify(fml.term_to_z3(t, z3, vs))
-        except Exception:
-            return a
-        if z3.is_true(r) or z3.is_false(r):
-            n[0] += 1
-            return ["true"] if z3.is_true(r) else ["false"]
-        return a
 
-    return S.map_atoms(F, fn), n[0]
+def _reraise_watchdog(e):
+    """the runner's watchdog exception, raised inside a ctypes call into Z3, surfaces as
+    `ctypes.ArgumentError: argument n: SoftTimeout:` -- that is a timeout, not a failure of ISLa"""
+    if "SoftTimeout" in str(e) or "SoftTimeout" in type(e).__name__:
+        from vlib.runner import SoftTimeout
+        raise SoftTimeout()
 
 
 def isla_parse(text, g):
@@ -278,6 +286,7 @@ def isla_parse(text, g):
     except BaseException as e:
         if type(e).__name__ in ("SoftTimeout", "KeyboardInterrupt", "RecursionError", "MemoryError"):
             raise
+        _reraise_watchdog(e)
         return None, (type(e).__name__, str(e))
 
 
@@ -297,10 +306,12 @@ def isla_eval(pf, dt, g, graph):
                 v = once()
         return v, None
     except Exception as e:
+        _reraise_watchdog(e)
         return "raises:" + type(e).__name__, str(e)[:300]
 
 
-ATOM_BUDGET = 600
+ATOM_BUDGET = 300        # atom evaluations per (formula, tree)
+CASE_BUDGET = 1200       # ... and per case (all trees)
 
 
 class CountingRef(fml.Ref):
@@ -322,20 +333,37 @@ class CountingRef(fml.Ref):
 def ref_sat(cg, t, f, budget=ATOM_BUDGET):
     r = CountingRef(cg, t, budget)
     v = r.sat(f, {"start": ()})
-    return v, r.flags, r.nonempty_domain
+    return v, r.flags, r.nonempty_domain, r.n
 
 
 def judge(case):
     g, trees, F = case["grammar"], case["trees"], case["formula"]
     cg = rt.canon(g)
-    text = S.pr_sugar(F)
+    cname = case.get("const")
+    text = S.pr_sugar(F) if not cname else "const %s: <start>; %s" % (cname, S.pr_sugar(S.rename_const(F, cname)))
     fs, causes = S.features(F)
     labels = sorted(fs) + ["grammar:" + case.get("gname", "?")]
+    if cname:
+        labels.append("const_decl")
+        uses_const = any(r == ["v", "start"] or (r[0] == "xp" and r[1] == ["v", "start"]) for r in S.all_refs(F))
+        if uses_const and fs & {"in_start_omitted", "free_nt"}:
+            labels.append("const_decl_and_implicit_start")
+            causes["const_implicit_start"] = set()
     key = "%s|%s" % (rt.join_alt(sorted("%s=%s" % (k, "|".join(v)) for k, v in g.items())), text)
     base = {"labels": labels, "nontrivial": False, "violations": [], "inconclusive": None, "key": key,
             "sample": {"sugar": text}}
     if not fs & set(S.SUGAR_FEATURES):
         labels.append("no_sugar")
+    types = {}
+    for x in S.sub_formulas(F):
+        if x[0] in ("forall", "exists") and x[2] is not None:
+            types.setdefault(x[2], set()).add(x[1])
+    if any(len(v) > 1 for v in types.values()):
+        # outside the domain: a name re-used with another nonterminal keeps its first type in the parser's variable
+        # table -- a defect of core ISLa parsing (the core text shows it as well), not of the sugar translation
+        labels.append("name_reused_with_other_type")
+        base["inconclusive"] = "outside_domain:name_reused_with_other_type"
+        return base
     # ---- the specification's translation
     try:
         d = S.desugar(cg, F)
@@ -347,17 +375,23 @@ def judge(case):
     readings = []
     if d is not None:
         readings = list(d["variants"])
-        F2, nconst = fold_const_atoms(F)
-        if nconst:
-            labels.append("const_atom")
+        atoms = [x for x in S.sub_formulas(F) if x[0] in ("smt", "pred", "count")]
+        has_const = any(x[0] == "smt" and term_is_const(x[1]) for x in atoms)
+        if has_const or any(atoms.count(x) > 1 for x in atoms):
+            # The parser folds constant atoms while reading (z3.simplify when it negates an atom; true/false vanish from
+            # and/or), so that variables occurring only there disappear before the free nonterminals are closed:
+            # two more readings, with all such atoms folded and with only the negated occurrences folded.
+            labels.append("const_atom" if has_const else "repeated_atom")
             causes["const_atom"] = set()
-            try:
-                d2 = S.desugar(cg, F2, fold=True)
-                readings += [v for v in [d2["core"]] + d2["variants"] if v not in readings and v != d["core"]]
-            except S.NotPinned:
-                pass
+            for mode in ("all", "neg"):
+                try:
+                    d2 = S.desugar(cg, F, fold=mode, const_of=const_of)
+                    readings += [v for v in [d2["core"]] + d2["variants"] if v not in readings and v != d["core"]]
+                except S.NotPinned:
+                    pass
         if d["printable"]:
-            core_text = fml.pr(d["core"])
+            core_text = fml.pr(d["core"]) if not cname else \
+                "const %s: <start>; %s" % (cname, fml.pr(S.rename_core_var(d["core"], "start", cname)))
             base["sample"]["core"] = core_text[:1500]
         else:
             labels.append("core_not_printable")
@@ -399,19 +433,24 @@ def judge(case):
     seen = set()
     verdicts = set()
     nonempty_any = False
-    judged = amb = flagged = costly = 0
+    judged = amb = flagged = costly = spent = 0
 
     def add(sig, **kw):
         if sig not in seen:
             seen.add(sig)
             viol.append(dict(sig=sig, sugar=text, core=core_text, **kw))
 
-    family = next((c for c in ("dd_negated_binder", "xp_binder_under_iff_xor", "xp_head_name_reused", "free_after_xpath_same_type")
+    family = next((c for c in ("const_implicit_start", "dd_negated_binder", "xp_binder_under_iff_xor", "xp_head_name_reused",
+                               "dup_binder_captures_xpath_var",
+                               "free_after_xpath_same_type")
                    if c in causes),
                   "xpath" if fs & {"xp_child", "xp_dd"} else "free" if "free_nt" in fs else "plain")
     for t in trees:
         try:
-            exp, flags, nonempty = ref_sat(cg, t, d["core"])
+            if spent > CASE_BUDGET:
+                raise fml.Undecided("cost")
+            exp, flags, nonempty, work = ref_sat(cg, t, d["core"])
+            spent += work
             alts = [ref_sat(cg, t, v, 10 * ATOM_BUDGET)[0] for v in readings]
         except fml.Undecided as e:
             if str(e) == "cost":
@@ -484,6 +523,8 @@ def health(stats, tier):
     for f, floor in (("free_nt", 0.1), ("xp_child", 0.1), ("xp_dd", 0.04), ("name_omitted", 0.08), ("in_start_omitted", 0.2),
                      ("infix", 0.2), ("prefix", 0.2), ("neg_literal", 0.04), ("conn:xor", 0.04), ("conn:iff", 0.04),
                      ("conn:implies", 0.04), ("xp_two_on_var", 0.005), ("xp_index>1", 0.005)):
+        if n < 400 and floor < 0.05:
+            continue    # rare features are only demanded of full-size runs
         if c.get(f, 0) < floor * n:
             return "feature %s in only %d of %d cases" % (f, c.get(f, 0), n)
     if c.get("both_verdicts", 0) < 0.1 * n:
